@@ -106,15 +106,43 @@ def jOut (t : TurnIn) (o : TurnOut) : Json :=
         ("prompt", jObj [("utter", jS (normalize true t.utter)),
                          ("snips", jArr ((pyTake t.cfg.topk (gatherSnippets t)).map (fun s => jS (normalize true s))))])]
 
-/-- A whole history: `{"clear":b,"reuse":b,"turns":[{"t":…,"o":…},…]}`. -/
+def parsePlanner (j : Json) : R (Option PlannerOut) := do
+  match j with
+  | Json.null => pure none
+  | Json.str "fallback" => pure (some PlannerOut.fallback)
+  | v => do pure (some (PlannerOut.answer (← fldBool v "answer")))
+
+/-- A whole history: `{"clear":b,"reuse":b,"turns":[{"t":…,"o":…},…]}`.  With `"planner":true` every turn
+also carries `"p"` (null | "fallback" | {"answer":b}) and the state flag is threaded by the model
+(`runHistP`) instead of being given per turn. -/
 def handleHist (j : Json) : R Json := do
   let clear ← fldBool j "clear"
   let reuse ← fldBool j "reuse"
+  let planner := (fldD j "planner" (Json.bool false)) == Json.bool true
   let mut h : List (TurnIn × Oracles) := []
+  let mut hp : List (Option PlannerOut × TurnIn × Oracles) := []
   for x in (← fldArr j "turns") do
-    h := h ++ [(← parseTurn (← fld x "t"), ← parseOracles (← fld x "o"))]
-  let outs := runHist clear reuse CtxSt.fresh h
+    let t ← parseTurn (← fld x "t")
+    let o ← parseOracles (← fld x "o")
+    h := h ++ [(t, o)]
+    hp := hp ++ [(← parsePlanner (fldD x "p" Json.null), t, o)]
+  let outs := if planner then runHistP clear reuse false CtxSt.fresh hp else runHist clear reuse CtxSt.fresh h
   pure (jArr ((h.zip outs).map (fun p => jOut p.1.1 p.2)))
+
+/-- Gate monitor over a planner history, on implementation observations:
+`{"turns":[{"t":…,"p":…,"called":b,"nWritten":n,"logged":b},…]}` → every turn passes `monGate` with the
+state flag the model threads (`flagsP`). -/
+def handleMonPlanner (j : Json) : R Json := do
+  let mut ts : List TurnIn := []
+  let mut ps : List (Option PlannerOut) := []
+  let mut obs : List (Bool × Nat × Bool) := []
+  for x in (← fldArr j "turns") do
+    ts := ts ++ [← parseTurn (← fld x "t")]
+    ps := ps ++ [← parsePlanner (fldD x "p" Json.null)]
+    obs := obs ++ [(← fldBool x "called", ← fldNat x "nWritten", ← fldBool x "logged")]
+  let fl := flagsP false ps
+  pure (jBool (((ts.zip fl).zip obs).all
+    (fun q => monGate { q.1.1 with stateFlag := q.1.2 } q.2.1 q.2.2.1 q.2.2.2)))
 
 /-- Text primitives (exact unit-level correspondence). -/
 def handleText (j : Json) : R Json := do
@@ -157,6 +185,6 @@ def routes : List (String × (Json → R Json)) :=
   [("refl.hist", handleHist), ("refl.text", handleText), ("refl.mon", handleMon),
    ("refl.mon.gate", monField "gate"), ("refl.mon.cap", monField "cap"),
    ("refl.mon.failsoft", monField "failsoft"), ("refl.mon.len", monField "len"),
-   ("refl.mon.textlen", handleMonLen)]
+   ("refl.mon.textlen", handleMonLen), ("refl.mon.planner", handleMonPlanner)]
 
 end Driver.HRefl
